@@ -69,6 +69,7 @@ type Frame struct {
 	invokeMethod *types.Func
 	held      []*heldLock
 	nAcquire  int
+	acquired  map[*lockSpec]bool // locks this (top) frame has taken on some path
 	nUnlock   int
 	relOrd    map[ssa.Instruction]int
 	ghosts    []*Val
